@@ -100,8 +100,19 @@ def readBit : P Bool
   | [] => .error .eof
   | b :: r => .ok (b, r)
 
+/-- the first `n` bits and the rest, in one pass; `none` when fewer than `n` bits are left -/
+def splitExact : Nat → Bits → Option (Bits × Bits)
+  | 0, b => some ([], b)
+  | _+1, [] => none
+  | n+1, x :: b =>
+    match splitExact n b with
+    | none => none
+    | some (t, r) => some (x :: t, r)
+
 def takeBits (n : Nat) : P Bits := fun b =>
-  if b.length < n then .error .eof else .ok (b.take n, b.drop n)
+  match splitExact n b with
+  | none => .error .eof
+  | some (t, r) => .ok (t, r)
 
 /-- `read::<n, unsigned>()` / `read_var(n)` -/
 def readU (n : Nat) : P Nat := fun b =>
